@@ -286,6 +286,100 @@ func checkContainsEq(w *World, c *Check, pr *prover, name string, contains, item
 			}
 		}
 	}
+	// search helper: return indexOf(c.Items, r) >= 0 — the helper is judged in place of the loop
+	if len(eqCalls) == 0 {
+		for _, call := range callsIn(contains) {
+			h := call.Common().StaticCallee()
+			if h == nil || h == contains || !w.InPkg(h) || h.Blocks == nil || len(call.Common().Args) != len(h.Params) {
+				continue
+			}
+			listIdx, itemIdx := -1, -1
+			for ai, a := range call.Common().Args {
+				if unwrap(a) == ssa.Value(param) {
+					itemIdx = ai
+				} else if derivesFromRoot(unwrap(a), recvRoot, 0) {
+					listIdx = ai
+				}
+			}
+			if listIdx < 0 || itemIdx < 0 {
+				continue
+			}
+			// the result of Contains is that call, or its comparison with a constant
+			resultFromCall := len(returnBlocks(contains)) > 0
+			for _, rb := range returnBlocks(contains) {
+				ret := rb.Instrs[len(rb.Instrs)-1].(*ssa.Return)
+				v := ret.Results[0]
+				if bo, ok := v.(*ssa.BinOp); ok {
+					if _, isC := bo.Y.(*ssa.Const); isC {
+						v = bo.X
+					} else if _, isC := bo.X.(*ssa.Const); isC {
+						v = bo.Y
+					}
+				}
+				if unwrap(v) != ssa.Value(call) {
+					resultFromCall = false
+				}
+			}
+			if !resultFromCall {
+				continue
+			}
+			var hEq []*ssa.Call
+			for _, hc := range callsIn(h) {
+				if cal := hc.Common().StaticCallee(); cal != nil && (cal == itemsEqual || cal == iriEquals) {
+					hEq = append(hEq, hc)
+				}
+			}
+			hList, hItem := pr.canonicalRoot(h.Params[listIdx]), h.Params[itemIdx]
+			okPair := false
+			for _, hc := range hEq {
+				fl, fp := false, false
+				for _, a := range hc.Common().Args[:2] {
+					a0 := unwrapCallRecv(a)
+					if a0 == ssa.Value(hItem) {
+						fp = true
+					} else if derivesFromRoot(a0, hList, 0) || derivesFromRoot(a0, ssa.Value(h.Params[listIdx]), 0) {
+						fl = true
+					}
+				}
+				if fl && fp {
+					okPair = true
+				}
+			}
+			// a "found" answer (anything but the constants false / -1) only under a successful comparison
+			foundOK := true
+			for _, rb := range returnBlocks(h) {
+				ret := rb.Instrs[len(rb.Instrs)-1].(*ssa.Return)
+				if len(ret.Results) != 1 {
+					continue
+				}
+				if k, isC := ret.Results[0].(*ssa.Const); isC && k.Value != nil && (k.Value.String() == "false" || k.Value.String() == "-1") {
+					continue
+				}
+				under := false
+				for _, g := range rawGuards(rb) {
+					if gc, ok := g.cond.(*ssa.Call); ok && g.onTrue {
+						if cal := gc.Common().StaticCallee(); cal == itemsEqual || cal == iriEquals {
+							under = true
+						}
+					}
+				}
+				if !under {
+					foundOK = false
+				}
+			}
+			switch {
+			case !okPair:
+				continue
+			case containsSkipsElements(w, hEq) != "":
+				c.bad("C13.eq", name+".Contains", w.FuncPos(h), name+".Contains (through "+funcName(h)+") "+containsSkipsElements(w, hEq))
+			case !foundOK:
+				c.bad("C13.eq", name+".Contains", w.FuncPos(h), funcName(h)+" can report a position without the equality test having succeeded")
+			default:
+				c.ok("C13.eq", name+".Contains", w.FuncPos(contains), "membership = "+funcName(h)+" finds an element equal (ItemsEqual/IRI.Equals) to the argument")
+			}
+			return
+		}
+	}
 	good := false
 	for _, call := range eqCalls {
 		args := call.Common().Args
@@ -434,6 +528,16 @@ func checkC14(w *World, c *Check, tier string) {
 				if bad != "" {
 					c.bad("C14.fold", key, w.InstrPos(fa), fmt.Sprintf("URL.%s of an operand %s", fname, bad))
 					continue
+				}
+				if fname == "Scheme" {
+					// the relation must not single out particular schemes: a scheme may be tested for being present and
+					// compared with the other operand's, but not with a scheme name — the insensitivities (trailing
+					// slash, dot segments, query order, fragment) would then hold for the named schemes only, and with
+					// the scheme ignored the relation stops being transitive across schemes
+					if name := comparedWithSchemeName(fa); name != "" {
+						c.bad("C14.scheme", key, w.InstrPos(fa), fmt.Sprintf("%s compares URL.Scheme with the scheme name %q: IRIs of other schemes take a different comparison path and lose the documented insensitivities", funcName(f), name))
+						continue
+					}
 				}
 				if fname == "Scheme" && f != eq {
 					// comparison of schemes must be under checkScheme
@@ -738,6 +842,65 @@ func checkC14Relation(w *World, c *Check, eq *ssa.Function, clos []*ssa.Function
 			c.bad("C14.query", "irisEqual:values-of-a-key:complete", w.FuncPos(ie), "the values of a repeated query key are not compared completely: neither two sorted lists compared position by position over their whole length nor a counting comparison was found (comparing only some of the values makes ids with different queries equal)")
 		} else if nested == "" {
 			c.ok("C14.query", "irisEqual:values-of-a-key:complete", w.FuncPos(ie), "sorted copies compared position by position (or counted)")
+		}
+		// the KEY sets: the two parsed queries (maps) are compared in both directions — equal lengths plus a lookup of
+		// every key of one in the other, a loop over each of them, or one call that is given both. A single loop over one
+		// map with lookups in the other is inclusion: "?a=1" would equal "?a=1&rev=2" in one argument order only.
+		{
+			isQueryMap := func(v ssa.Value) bool {
+				m, ok := types.Unalias(v.Type()).Underlying().(*types.Map)
+				if !ok || !isStringish(m.Key()) {
+					return false
+				}
+				_, isSl := types.Unalias(m.Elem()).Underlying().(*types.Slice)
+				return isSl
+			}
+			lenCompared, bothToOne := false, false
+			ranged := map[ssa.Value]bool{}
+			nQueryMaps := 0
+			for _, qf := range qfns {
+				for _, b := range qf.Blocks {
+					for _, in := range b.Instrs {
+						switch x := in.(type) {
+						case *ssa.BinOp:
+							if x.Op == token.EQL || x.Op == token.NEQ {
+								lx, okx := lenOperand(x.X)
+								ly, oky := lenOperand(x.Y)
+								if okx && oky && isQueryMap(lx) && isQueryMap(ly) && lx != ly {
+									lenCompared = true
+								}
+							}
+						case *ssa.Range:
+							if isQueryMap(x.X) {
+								ranged[x.X] = true
+							}
+						case *ssa.Call:
+							if cal := x.Common().StaticCallee(); cal != nil && cal.Name() == "Query" && isQueryMap(x) {
+								nQueryMaps++
+							}
+							n := 0
+							for _, a := range x.Common().Args {
+								if isQueryMap(unwrap(a)) {
+									n++
+								}
+							}
+							if n >= 2 {
+								if cal := x.Common().StaticCallee(); cal == nil || !w.InPkg(cal) {
+									bothToOne = true // reflect.DeepEqual, maps.EqualFunc …
+								}
+							}
+						}
+					}
+				}
+			}
+			switch {
+			case nQueryMaps == 0:
+				// no parsed query at all: C14.components reports that
+			case lenCompared || bothToOne || len(ranged) >= 2:
+				c.ok("C14.query", "irisEqual:keys-both-ways", w.FuncPos(ie), "the two parsed queries are compared in both directions (equal sizes and inclusion, two loops, or one comparison of both)")
+			default:
+				c.bad("C14.query", "irisEqual:keys-both-ways", w.FuncPos(ie), "the keys of the two parsed queries are compared in one direction only (a loop over one query looking its keys up in the other, without comparing the sizes or a second loop): an id whose query has additional parameters equals the one without them in one argument order and not in the other")
+			}
 		}
 		if nested != "" {
 			c.bad("C14.query", "irisEqual:values-of-a-key", nested, "the values of a repeated query key are compared by looking each value of one operand up among the other's (nested loops around the == at "+nested+"): with a repeated value this is containment in one direction — '?x=1&x=1' equals '?x=1&x=2' but not the other way round — not equality of multisets")
@@ -1391,4 +1554,56 @@ func isNilTestCond(v ssa.Value) bool {
 		}
 	}
 	return false
+}
+
+// comparedWithSchemeName: the value loaded from the scheme field is compared (==, !=, EqualFold, HasPrefix, a switch)
+// with a non-empty constant string: returns that constant.
+func comparedWithSchemeName(fa *ssa.FieldAddr) string {
+	found := ""
+	var visit func(v ssa.Value, d int)
+	visit = func(v ssa.Value, d int) {
+		if d > 4 || v.Referrers() == nil || found != "" {
+			return
+		}
+		for _, r := range *v.Referrers() {
+			switch x := r.(type) {
+			case *ssa.UnOp:
+				if x.Op == token.MUL {
+					visit(x, d+1)
+				}
+			case *ssa.Convert:
+				visit(x, d+1)
+			case *ssa.ChangeType:
+				visit(x, d+1)
+			case *ssa.BinOp:
+				if x.Op == token.EQL || x.Op == token.NEQ {
+					for _, o := range []ssa.Value{x.X, x.Y} {
+						if s, ok := constString(o); ok && s != "" {
+							found = s
+						}
+					}
+				}
+			case *ssa.Call:
+				cal := x.Common().StaticCallee()
+				if cal == nil || cal.Object() == nil || cal.Object().Pkg() == nil || cal.Object().Pkg().Path() != "strings" {
+					if cal != nil && cal.Name() == "ToLower" {
+						visit(x, d+1)
+					}
+					continue
+				}
+				switch cal.Name() {
+				case "ToLower", "ToUpper", "TrimSpace":
+					visit(x, d+1)
+				default:
+					for _, a := range x.Common().Args {
+						if s, ok := constString(a); ok && s != "" {
+							found = s
+						}
+					}
+				}
+			}
+		}
+	}
+	visit(fa, 0)
+	return found
 }
